@@ -70,3 +70,538 @@ Proof.
   - repeat split; auto.
   - repeat split; auto. intros s H; injection H as <-. reflexivity.
 Qed.
+
+Ltac fields := cbn [o_canon o_turns o_seq o_struct c_stab c_ptab c_li c_ext fst snd] in *.
+
+Ltac fin := repeat split; auto;
+  try (intros ? H; injection H as <-; (reflexivity || assumption)); try (intros ? H; discriminate H);
+  try (intros; eauto; fail).
+
+Lemma get_ptab_spec o : cache_ok o ->
+  snd (get_ptab o) = make_pair_table cP [cD] (o_struct o) /\
+  cache_ok (fst (get_ptab o)) /\ same_core (fst (get_ptab o)) o /\
+  (forall t, snd (get_ptab o) = Ok t -> c_ptab (fst (get_ptab o)) = Some t) /\
+  c_stab (fst (get_ptab o)) = c_stab o /\ c_li (fst (get_ptab o)) = c_li o /\ c_ext (fst (get_ptab o)) = c_ext o.
+Proof.
+  destruct o as [cn tu sq st cs cp cl ce]. unfold cache_ok, get_ptab, same_core. fields.
+  intros (C1 & C2 & C3 & C4 & C5).
+  destruct cp as [[|r t]|]; cbn [truthy]; fields.
+  - pose proof (C2 _ eq_refl) as P. rewrite P. fields. fin.
+  - fin. symmetry. apply C2. reflexivity.
+  - destruct (make_pair_table cP [cD] st) as [t|k] eqn:P; fields; fin.
+Qed.
+
+Definition li_fill (o1 : cobj) (r : res tab) : cobj * res (list (list nat) * list nat) :=
+  match r with
+  | Err e => (o1, Err e)
+  | Ok t => match make_loop_index t with
+            | Ok le => (mkc (o_canon o1) (o_turns o1) (o_seq o1) (o_struct o1) (c_stab o1) (c_ptab o1)
+                            (Some le) (c_ext o1), Ok le)
+            | Err e => (o1, Err e)
+            end
+  end.
+
+Lemma get_li_unfold o :
+  get_li o = match c_li o with
+             | Some (x :: l, e) => (o, Ok (x :: l, e))
+             | _ => li_fill (fst (get_ptab o)) (snd (get_ptab o))
+             end.
+Proof.
+  unfold get_li, li_fill. destruct (get_ptab o) as [o1 r]. reflexivity.
+Qed.
+
+Lemma get_li_spec o : cache_ok o ->
+  snd (get_li o) = loop_index_of (o_struct o) /\
+  cache_ok (fst (get_li o)) /\ same_core (fst (get_li o)) o /\
+  (forall le, snd (get_li o) = Ok le -> c_li (fst (get_li o)) = Some le) /\
+  c_stab (fst (get_li o)) = c_stab o /\ c_ext (fst (get_li o)) = c_ext o.
+Proof.
+  intros K. rewrite get_li_unfold.
+  assert (Main : let res := li_fill (fst (get_ptab o)) (snd (get_ptab o)) in
+    snd res = loop_index_of (o_struct o) /\ cache_ok (fst res) /\ same_core (fst res) o /\
+    (forall le, snd res = Ok le -> c_li (fst res) = Some le) /\
+    c_stab (fst res) = c_stab o /\ c_ext (fst res) = c_ext o).
+  { pose proof (get_ptab_spec o K) as (P1 & P2 & P3 & P4 & P5 & P6 & P7).
+    destruct (get_ptab o) as [o1 r]. fields. unfold li_fill, loop_index_of, pair_table_of. rewrite <- P1.
+    destruct r as [t|e]; cbn [rbind].
+    - destruct (make_loop_index t) as [le|e] eqn:L; fields.
+      + destruct P2 as (C1 & C2 & C3 & C4 & C5). destruct P3 as (S1 & S2 & S3 & S4).
+        split; [reflexivity|]. split.
+        { unfold cache_ok. fields. repeat split; auto.
+          - intros le0 H; injection H as <-. unfold loop_index_of, pair_table_of.
+            rewrite S4, <- P1. cbn [rbind]. exact L.
+          - intros le0 H. exists t. apply P4. reflexivity. }
+        split; [repeat split; assumption|].
+        split; [intros le0 H; injection H as <-; reflexivity|]. auto.
+      + split; [reflexivity|]. split; [exact P2|]. split; [exact P3|]. split; [intros ? H; discriminate H|]. auto.
+    - split; [reflexivity|]. split; [exact P2|]. split; [exact P3|]. split; [intros ? H; discriminate H|]. auto. }
+  destruct (c_li o) as [[[|x l] e]|] eqn:E; try exact Main.
+  fields. destruct K as (C1 & C2 & C3 & C4 & C5).
+  split; [symmetry; apply C3; exact E|].
+  split; [repeat split; auto|]. split; [apply same_core_refl|].
+  split; [intros le H; injection H as <-; exact E|]. auto.
+Qed.
+
+Lemma ext_enc_li s :
+  ext_enc s = match loop_index_of s with
+              | Err e => Err e
+              | Ok le => match make_pair_table cP [cD] s with
+                         | Ok t => Ok (scan_rows (snd le) 0 (fst le) t)
+                         | Err e => Err e
+                         end
+              end.
+Proof.
+  unfold ext_enc, loop_index_of, pair_table_of.
+  destruct (make_pair_table cP [cD] s) as [t|e]; cbn [rbind]; [|reflexivity].
+  destruct (make_loop_index t) as [le|e]; reflexivity.
+Qed.
+
+Definition ext_fill (o1 : cobj) (r : res (list (list nat) * list nat)) : cobj * res (list loc * list loc) :=
+  match r with
+  | Err e => (o1, Err e)
+  | Ok le =>
+      match c_ptab o1 with
+      | Some t =>
+          let xe := scan_rows (snd le) 0 (fst le) t in
+          (mkc (o_canon o1) (o_turns o1) (o_seq o1) (o_struct o1) (c_stab o1) (c_ptab o1) (c_li o1) (Some xe), Ok xe)
+      | None => (o1, Err eType)
+      end
+  end.
+
+Lemma get_ext_unfold o :
+  get_ext o = match c_ext o with
+              | Some (x :: l, e) => (o, Ok (x :: l, e))
+              | _ => ext_fill (fst (get_li o)) (snd (get_li o))
+              end.
+Proof.
+  unfold get_ext, ext_fill. destruct (get_li o) as [o1 r]. reflexivity.
+Qed.
+
+Lemma get_ext_spec o : cache_ok o ->
+  snd (get_ext o) = ext_enc (o_struct o) /\
+  cache_ok (fst (get_ext o)) /\ same_core (fst (get_ext o)) o.
+Proof.
+  intros K. rewrite get_ext_unfold.
+  assert (Main : let res := ext_fill (fst (get_li o)) (snd (get_li o)) in
+    snd res = ext_enc (o_struct o) /\ cache_ok (fst res) /\ same_core (fst res) o).
+  { pose proof (get_li_spec o K) as (L1 & L2 & L3 & L4 & L5 & L6).
+    destruct (get_li o) as [o1 r]. fields. unfold ext_fill. rewrite ext_enc_li, <- L1.
+    destruct r as [le|e]; [|fields; auto].
+    pose proof (L4 le eq_refl) as Hli.
+    pose proof L2 as (C1 & C2 & C3 & C4 & C5). destruct L3 as (S1 & S2 & S3 & S4).
+    destruct (C5 le Hli) as [t Ht]. rewrite Ht. fields.
+    pose proof (C2 t Ht) as Hp. rewrite S4 in Hp. rewrite Hp.
+    split; [reflexivity|]. split; [|repeat split; assumption].
+    unfold cache_ok. fields. repeat split; auto.
+    - intros t0 H; injection H as <-. rewrite S4. exact Hp.
+    - intros xe H; injection H as <-. rewrite S4, ext_enc_li, <- L1, Hp. reflexivity.
+    - intros le0 _. eauto. }
+  destruct (c_ext o) as [[[|x l] e]|] eqn:E; try exact Main.
+  fields. pose proof K as (C1 & C2 & C3 & C4 & C5).
+  split; [symmetry; apply C4; exact E|]. split; [exact K|apply same_core_refl].
+Qed.
+
+(* ---- size, rotate() ---- *)
+Lemma size_spec o : cache_ok o ->
+  snd (size o) = n_strands (o_seq o) /\ cache_ok (fst (size o)) /\ same_core (fst (size o)) o.
+Proof.
+  intros K. pose proof (get_stab_spec o K) as (S1 & S2 & S3 & _). unfold size.
+  destruct (get_stab o) as [o1 s]. fields. subst s. auto.
+Qed.
+
+Lemma size_nstr_view o : ViewOK o -> snd (size o) = nstr (o_struct o).
+Proof.
+  intros (GN & _ & _ & _ & K). destruct (size_spec o K) as (-> & _).
+  apply (n_strands_nstr (rep o) GN).
+Qed.
+
+Lemma rot_list_spec k : forall x, good x ->
+  rot_list k x = Ok (map (fun j => Nat.iter j rotT x) (seq 1 k)).
+Proof.
+  induction k as [|k IH]; intros x G; [reflexivity|].
+  cbn [rot_list]. destruct (rotT_ok x G) as [E Gy]. unfold once in E. unfold rot1. rewrite E. cbn [rbind].
+  rewrite IH by exact Gy. cbn [rbind]. rewrite seq_S. cbn [map]. f_equal. f_equal.
+  rewrite <- (seq_shift k 1), map_map. apply map_ext. intros j. rewrite iter_succ_r. reflexivity.
+Qed.
+
+(* rotate(k), k >= 1: the current representation and its next k-1 rotations *)
+Lemma cobj_rotate_spec o k : good (rep o) ->
+  cobj_rotate o (S k) = Ok (map (fun j => Nat.iter j rotT (rep o)) (seq 0 (S k))).
+Proof.
+  intros G. unfold cobj_rotate. replace (S k - 1) with k by lia.
+  fold (rep o). rewrite rot_list_spec by exact G. cbn [rbind]. rewrite seq_S. reflexivity.
+Qed.
+
+Lemma cobj_rotate_core a b k : o_seq a = o_seq b -> o_struct a = o_struct b ->
+  cobj_rotate a k = cobj_rotate b k.
+Proof. intros E1 E2. unfold cobj_rotate. rewrite E1, E2. reflexivity. Qed.
+
+Lemma nstr_iter_rotT k x : good x -> nstr (snd (Nat.iter k rotT x)) = nstr (snd x).
+Proof.
+  intros G. induction k as [|k IH]; [reflexivity|].
+  rewrite iter_S, nstr_rotT by (apply iter_rotT_good, G). exact IH.
+Qed.
+
+Lemma wrap_mod x m : (0 < m)%Z -> wrap x m = (x mod m)%Z.
+Proof.
+  intros H. unfold wrap. pose proof (Z.mod_pos_bound x m H).
+  replace (x mod m + m)%Z with (x mod m + 1 * m)%Z by lia.
+  rewrite Z.mod_add by lia. apply Z.mod_small. lia.
+Qed.
+
+Lemma wrap_bound x m : (0 < m)%Z -> (0 <= wrap x m < m)%Z.
+Proof. intros H. rewrite wrap_mod by exact H. apply Z.mod_pos_bound, H. Qed.
+
+(* ---- the turns setter ---- *)
+Theorem set_turns_spec o v : ViewOK o ->
+  let n := nstr (o_struct o) in
+  exists o', set_turns o v = Ok o' /\
+    o_turns o' = wrap v (Z.of_nat n) /\
+    o_canon o' = o_canon o /\
+    (o_seq o', o_struct o') = Nat.iter (Z.to_nat (wrap v (Z.of_nat n))) rotT (o_canon o) /\
+    c_stab o' = None /\ c_ptab o' = None /\ c_li o' = None /\ c_ext o' = None.
+Proof.
+  intros V n. pose proof V as (GN & T1 & T2 & Gc & K). pose proof GN as [G _].
+  pose proof (size_nstr_view o V) as SZ. destruct (size_spec o K) as (_ & K1 & (S1 & S2 & S3 & S4)).
+  unfold set_turns. destruct (size o) as [o1 tot]. fields. subst tot. fold n.
+  assert (Hn : 0 < n) by (unfold n, nstr; lia).
+  destruct (Nat.eqb_spec n 0) as [|_]; [lia|].
+  set (t := wrap (- o_turns o1 + v) (Z.of_nat n)).
+  assert (Ht : (0 <= t < Z.of_nat n)%Z) by (apply wrap_bound; lia).
+  assert (R : rep o1 = rep o) by (unfold rep; rewrite S3, S4; reflexivity).
+  rewrite cobj_rotate_spec by (rewrite R; exact G). cbn [rbind].
+  rewrite (nth_error_map_seq _ (S (Z.to_nat t)) 0 (Z.to_nat t)) by lia. cbn [Nat.add].
+  rewrite R. destruct (Nat.iter (Z.to_nat t) rotT (rep o)) as [s st] eqn:E.
+  eexists. split; [reflexivity|]. fields. split; [reflexivity|]. split; [exact S1|].
+  split; [|auto]. rewrite <- E, <- T2, <- iter_add.
+  rewrite (iter_rotT_mod (Z.to_nat t + Z.to_nat (o_turns o)) (o_canon o) Gc).
+  f_equal.
+  assert (NC : nstr (snd (o_canon o)) = n).
+  { pose proof (nstr_iter_rotT (Z.to_nat (o_turns o)) (o_canon o) Gc) as H. rewrite T2 in H.
+    symmetry. exact H. }
+  rewrite NC. apply Nat2Z.inj. rewrite Nat2Z.inj_mod, Nat2Z.inj_add, !Z2Nat.id by lia.
+  rewrite wrap_mod by lia. unfold t. rewrite wrap_mod by lia. rewrite S2.
+  rewrite Zplus_mod_idemp_l. rewrite Z2Nat.id by (apply Z.mod_pos_bound; lia). f_equal. lia.
+Qed.
+
+(* ---- T1: the invariant holds after construction ---- *)
+Theorem viewok_after_construction sq st canon turns rots :
+  goodNE (sq, st) -> identifiers_fresh sq st = Ok (canon, turns, rots) ->
+  ViewOK (new_obj canon turns sq st).
+Proof.
+  intros GN H. pose proof GN as [G _].
+  destruct (turns_correct (sq, st) canon turns rots GN H) as [B E].
+  destruct (identifiers_fresh_total (sq, st) GN) as (c & e & E' & _ & Hc & _).
+  cbn [fst snd] in *. rewrite E' in H. injection H as H _ _. subst c.
+  unfold ViewOK, rep, new_obj. fields.
+  split; [exact GN|]. split; [exact B|]. split; [exact E|].
+  split; [rewrite Hc; apply iter_rotT_good, G|apply cache_ok_none].
+Qed.
+
+(* ---- T2: every operation preserves the invariant ---- *)
+Lemma ViewOK_nstr_canon o : ViewOK o -> nstr (snd (o_canon o)) = nstr (o_struct o).
+Proof.
+  intros (_ & _ & T2 & Gc & _).
+  pose proof (nstr_iter_rotT (Z.to_nat (o_turns o)) (o_canon o) Gc) as H. rewrite T2 in H.
+  symmetry. exact H.
+Qed.
+
+Lemma ViewOK_goodNE_canon o : ViewOK o -> goodNE (o_canon o).
+Proof.
+  intros V. pose proof (ViewOK_nstr_canon o V) as NC. destruct V as (GN & T1 & T2 & Gc & _).
+  assert (E : o_canon o = Nat.iter (nstr (o_struct o) - Z.to_nat (o_turns o)) rotT (rep o)).
+  { rewrite <- T2, <- iter_add.
+    replace (nstr (o_struct o) - Z.to_nat (o_turns o) + Z.to_nat (o_turns o)) with (nstr (snd (o_canon o))) by lia.
+    symmetry. apply rotT_orbit, Gc. }
+  rewrite E. apply iter_rotT_goodNE, GN.
+Qed.
+
+Lemma set_turns_viewok o v o' : ViewOK o -> set_turns o v = Ok o' -> ViewOK o'.
+Proof.
+  intros V H. destruct (set_turns_spec o v V) as (o2 & E & A1 & A2 & A3 & A4 & A5 & A6 & A7).
+  rewrite E in H. injection H as <-.
+  pose proof (ViewOK_goodNE_canon o V) as GNc. pose proof (ViewOK_nstr_canon o V) as NC.
+  pose proof V as (_ & _ & _ & Gc & _).
+  assert (Hn : (0 < Z.of_nat (nstr (o_struct o)))%Z) by (unfold nstr; lia).
+  assert (NS : nstr (o_struct o2) = nstr (o_struct o)).
+  { change (o_struct o2) with (snd (o_seq o2, o_struct o2)). rewrite A3, nstr_iter_rotT by exact Gc. exact NC. }
+  unfold ViewOK, rep. rewrite A1, A2, A3, NS.
+  split; [apply iter_rotT_goodNE, GNc|]. split; [apply wrap_bound, Hn|]. split; [reflexivity|].
+  split; [exact Gc|]. destruct o2. fields. subst. apply cache_ok_none.
+Qed.
+
+Definition is_query (op : vop) : Prop := match op with VSetTurns _ => False | _ => True end.
+
+(* queries only fill caches: identity, turns and the representation are untouched *)
+Lemma vstep_query_core o op : cache_ok o -> is_query op ->
+  cache_ok (fst (vstep o op)) /\ same_core (fst (vstep o op)) o.
+Proof.
+  intros K Q.
+  pose proof (get_stab_spec o K) as (_ & A1 & A2 & _).
+  pose proof (get_ptab_spec o K) as (_ & B1 & B2 & _).
+  pose proof (get_li_spec o K) as (_ & C1 & C2 & _).
+  pose proof (get_ext_spec o K) as (_ & D1 & D2).
+  pose proof (size_spec o K) as (_ & E1 & E2).
+  pose proof (same_core_refl o) as R.
+  destruct op; cbn [vstep]; try (split; [exact K|exact R]); try contradiction.
+  - destruct (size o); auto.
+  - destruct (get_stab o); auto.
+  - unfold with_ptab. destruct (get_ptab o) as [o1 [t|e]]; auto.
+  - destruct (get_stab o); auto.
+  - destruct (get_stab o); auto.
+  - destruct ((a <? 0)%Z || (b <? 0)%Z); [auto|].
+    unfold with_ptab. destruct (get_ptab o) as [o1 [t|e]]; auto.
+  - destruct (get_li o); auto.
+  - destruct (get_ext o); auto.
+  - destruct (c_ext o) as [[a [|x l]]|]; try (destruct (get_ext o); auto); auto.
+  - destruct (c_li o) as [[[|x l] e]|]; try (destruct (get_li o); auto); auto.
+  - destruct (size o); auto.
+  - destruct (size o); auto.
+Qed.
+
+Theorem viewok_preserved o op : ViewOK o -> ViewOK (fst (vstep o op)).
+Proof.
+  intros V. destruct op as [v| | | | | | | | | | | | | | | | |];
+    try (pose proof V as (_ & _ & _ & _ & K);
+         match goal with |- ViewOK (fst (vstep o ?op)) =>
+           destruct (vstep_query_core o op K I) as [K1 S1];
+           exact (ViewOK_same_core _ _ S1 K1 V) end).
+  cbn [vstep]. destruct (set_turns o v) as [o'|e] eqn:E; cbn [fst]; [|exact V].
+  exact (set_turns_viewok o v o' V E).
+Qed.
+
+(* the object after a list of operations *)
+Fixpoint vstate (o : cobj) (ops : list vop) : cobj :=
+  match ops with
+  | [] => o
+  | op :: r => vstate (fst (vstep o op)) r
+  end.
+
+Theorem viewok_run ops : forall o, ViewOK o -> ViewOK (vstate o ops).
+Proof.
+  induction ops as [|op r IH]; intros o V; [exact V|].
+  cbn [vstate]. apply IH, viewok_preserved, V.
+Qed.
+
+(* ---- T4: no stale cache can be observed ---- *)
+(* the value of every view as a function of the current representation only *)
+Lemma vstep_stab_val o (f : list (list pstr) -> val) : cache_ok o ->
+  snd (let '(o1, s) := get_stab o in (o1, f s)) = f (make_strand_table_list sPlus (o_seq o)).
+Proof. intros K. destruct (get_stab_spec o K) as (A & _). destruct (get_stab o). fields. subst. reflexivity. Qed.
+
+Lemma with_ptab_val o (f : tab -> val) : cache_ok o ->
+  snd (with_ptab o (fun o1 t => (o1, f t)))
+  = match make_pair_table cP [cD] (o_struct o) with Ok t => f t | Err e => err e end.
+Proof.
+  intros K. destruct (get_ptab_spec o K) as (A & _). unfold with_ptab.
+  destruct (get_ptab o) as [o1 r]. fields. subst r.
+  destruct (make_pair_table cP [cD] (o_struct o)); reflexivity.
+Qed.
+
+Lemma vstep_li_val o (f : res (list (list nat) * list nat) -> val) : cache_ok o ->
+  snd (let '(o1, r) := get_li o in (o1, f r)) = f (loop_index_of (o_struct o)).
+Proof. intros K. destruct (get_li_spec o K) as (A & _). destruct (get_li o). fields. subst. reflexivity. Qed.
+
+Lemma vstep_ext_val o (f : res (list loc * list loc) -> val) : cache_ok o ->
+  snd (let '(o1, r) := get_ext o in (o1, f r)) = f (ext_enc (o_struct o)).
+Proof. intros K. destruct (get_ext_spec o K) as (A & _). destruct (get_ext o). fields. subst. reflexivity. Qed.
+
+Lemma vstep_size_val o (f : cobj -> nat -> val) : cache_ok o ->
+  (forall a b n, o_seq a = o_seq b -> o_struct a = o_struct b -> f a n = f b n) ->
+  snd (let '(o1, n) := size o in (o1, f o1 n)) = f o (n_strands (o_seq o)).
+Proof.
+  intros K Hf. destruct (size_spec o K) as (A & _ & (_ & _ & S3 & S4)). destruct (size o) as [o1 n].
+  fields. subst n. apply Hf; assumption.
+Qed.
+
+Definition enc_val (r : res (list loc * list loc)) : val :=
+  match r with Ok xe => of_locs (snd xe) | Err e => err e end.
+Definition conn_val (r : res (list (list nat) * list nat)) : val :=
+  match r with Ok _ => VBool true | Err e => if str_eqb e eSSE then VBool false else err e end.
+
+Lemma vstep_enc_val o : cache_ok o -> snd (vstep o VEnc) = enc_val (ext_enc (o_struct o)).
+Proof.
+  intros K. cbn [vstep]. pose proof K as (_ & _ & _ & C4 & _).
+  pose proof (vstep_ext_val o enc_val K) as G. unfold enc_val in *.
+  destruct (c_ext o) as [[a [|x l]]|] eqn:E; try exact G.
+  rewrite (C4 _ eq_refl). reflexivity.
+Qed.
+
+Lemma vstep_conn_val o : cache_ok o -> snd (vstep o VConnected) = conn_val (loop_index_of (o_struct o)).
+Proof.
+  intros K. cbn [vstep]. pose proof K as (_ & _ & C3 & _).
+  pose proof (vstep_li_val o conn_val K) as G. unfold conn_val in *.
+  destruct (c_li o) as [[[|x l] e]|] eqn:E; try exact G.
+  rewrite (C3 _ eq_refl). reflexivity.
+Qed.
+
+(* two objects with the same core fields and consistent caches are observationally equal *)
+Lemma vstep_obs_core a b op : ViewOK a -> ViewOK b -> same_core a b ->
+  snd (vstep a op) = snd (vstep b op).
+Proof.
+  intros Va Vb (S1 & S2 & S3 & S4).
+  pose proof Va as (_ & _ & _ & _ & Ka). pose proof Vb as (_ & _ & _ & _ & Kb).
+  destruct op.
+  - cbn [vstep]. destruct (set_turns_spec a v Va) as (a' & -> & _). destruct (set_turns_spec b v Vb) as (b' & -> & _).
+    reflexivity.
+  - cbn [vstep snd]. rewrite S2. reflexivity.
+  - cbn [vstep snd]. rewrite S3. reflexivity.
+  - cbn [vstep snd]. rewrite S4. reflexivity.
+  - cbn [vstep snd]. rewrite S3, S4. reflexivity.
+  - cbn [vstep]. rewrite (vstep_size_val a (fun _ n => of_nat n) Ka), (vstep_size_val b (fun _ n => of_nat n) Kb), S3 by reflexivity.
+    reflexivity.
+  - cbn [vstep]. rewrite !vstep_stab_val, S3 by assumption. reflexivity.
+  - cbn [vstep]. rewrite !with_ptab_val, S4 by assumption. reflexivity.
+  - cbn [vstep].
+    rewrite (vstep_stab_val a (fun s => match nth_error s p with Some r => of_nat (length r) | None => err eIndex end) Ka).
+    rewrite (vstep_stab_val b (fun s => match nth_error s p with Some r => of_nat (length r) | None => err eIndex end) Kb).
+    rewrite S3. reflexivity.
+  - cbn [vstep].
+    rewrite (vstep_stab_val a (fun s => of_res VStr (nth2r s l)) Ka), (vstep_stab_val b (fun s => of_res VStr (nth2r s l)) Kb), S3.
+    reflexivity.
+  - cbn [vstep]. destruct ((a0 <? 0)%Z || (b0 <? 0)%Z); [reflexivity|].
+    rewrite !with_ptab_val, S4 by assumption. reflexivity.
+  - cbn [vstep].
+    rewrite (vstep_li_val a (fun r => match r with Ok le => of_res of_nat (nth2r (fst le) l) | Err e => err e end) Ka).
+    rewrite (vstep_li_val b (fun r => match r with Ok le => of_res of_nat (nth2r (fst le) l) | Err e => err e end) Kb).
+    rewrite S4. reflexivity.
+  - cbn [vstep].
+    rewrite (vstep_ext_val a (fun r => match r with Ok xe => of_locs (fst xe) | Err e => err e end) Ka).
+    rewrite (vstep_ext_val b (fun r => match r with Ok xe => of_locs (fst xe) | Err e => err e end) Kb).
+    rewrite S4. reflexivity.
+  - rewrite !vstep_enc_val, S4 by assumption. reflexivity.
+  - rewrite !vstep_conn_val, S4 by assumption. reflexivity.
+  - cbn [vstep].
+    rewrite (vstep_size_val a (fun o1 n => of_res of_ckeys (cobj_rotate o1 n)) Ka)
+      by (intros x y n E1 E2; rewrite (cobj_rotate_core x y n E1 E2); reflexivity).
+    rewrite (vstep_size_val b (fun o1 n => of_res of_ckeys (cobj_rotate o1 n)) Kb)
+      by (intros x y n E1 E2; rewrite (cobj_rotate_core x y n E1 E2); reflexivity).
+    rewrite (cobj_rotate_core a b _ S3 S4), S3. reflexivity.
+  - cbn [vstep].
+    match goal with |- snd (let '(o1, n) := size a in (o1, match cobj_rotate o1 n with Err e => _ | Ok l => ?g l [] end)) = _ =>
+      rewrite (vstep_size_val a (fun o1 n => match cobj_rotate o1 n with Err e => err e | Ok l => g l [] end) Ka)
+        by (intros x y n E1 E2; rewrite (cobj_rotate_core x y n E1 E2); reflexivity);
+      rewrite (vstep_size_val b (fun o1 n => match cobj_rotate o1 n with Err e => err e | Ok l => g l [] end) Kb)
+        by (intros x y n E1 E2; rewrite (cobj_rotate_core x y n E1 E2); reflexivity)
+    end.
+    rewrite (cobj_rotate_core a b _ S3 S4), S3. reflexivity.
+  - cbn [vstep snd]. rewrite S1. reflexivity.
+Qed.
+
+Theorem views_describe_current_rotation o op : ViewOK o ->
+  snd (vstep o op) = snd (vstep (new_obj (o_canon o) (o_turns o) (o_seq o) (o_struct o)) op).
+Proof.
+  intros V. apply vstep_obs_core; [exact V|exact (ViewOK_fresh o V)|].
+  apply same_core_sym, (same_core_fresh o).
+Qed.
+
+(* ---- histories: vrun lists the observations made along vstate ---- *)
+Lemma vrun_app o : forall pre op,
+  vrun o (pre ++ [op]) = vrun o pre ++ [snd (vstep (vstate o pre) op)].
+Proof.
+  intros pre. revert o. induction pre as [|p r IH]; intros o op; cbn [app vrun vstate].
+  - destruct (vstep o op); reflexivity.
+  - destruct (vstep o p) as [o1 v] eqn:E. cbn [fst app]. rewrite IH. reflexivity.
+Qed.
+
+(* after any history, any further observation is the one a freshly built object
+   at the current rotation gives *)
+Theorem history_views_current o pre op : ViewOK o ->
+  let o' := vstate o pre in
+  snd (vstep o' op) = snd (vstep (new_obj (o_canon o') (o_turns o') (o_seq o') (o_struct o')) op).
+Proof. intros V. apply views_describe_current_rotation, viewok_run, V. Qed.
+
+(* identity and canonical form never change; the representation is always the
+   turns-th rotation of the canonical form *)
+Theorem history_canon_fixed ops : forall o, ViewOK o -> o_canon (vstate o ops) = o_canon o.
+Proof.
+  induction ops as [|op r IH]; intros o V; [reflexivity|]. cbn [vstate].
+  rewrite IH by (apply viewok_preserved, V).
+  destruct op as [v| | | | | | | | | | | | | | | | |];
+    try (pose proof V as (_ & _ & _ & _ & K);
+         match goal with |- o_canon (fst (vstep o ?op)) = _ =>
+           destruct (vstep_query_core o op K I) as [_ (S1 & _)]; exact S1 end).
+  cbn [vstep]. destruct (set_turns_spec o v V) as (o' & -> & _ & A & _). exact A.
+Qed.
+
+(* ---- the values of the views, spelt out ---- *)
+Lemma cobj_rotate_all o : ViewOK o ->
+  cobj_rotate o (nstr (o_struct o)) = Ok (rotations (rep o)).
+Proof.
+  intros (GN & _). pose proof GN as [G _]. unfold nstr at 1.
+  rewrite cobj_rotate_spec by exact G. reflexivity.
+Qed.
+
+Theorem view_values o : ViewOK o ->
+  let sq := o_seq o in let st := o_struct o in
+  let stab := make_strand_table_list sPlus sq in
+  (sq, st) = Nat.iter (Z.to_nat (o_turns o)) rotT (o_canon o) /\
+  snd (vstep o VSize) = of_nat (nstr st) /\
+  snd (vstep o VStab) = of_stab stab /\
+  snd (vstep o VPtab) = of_tab (tabT st) /\
+  make_pair_table cP [cD] st = Ok (tabT st) /\
+  (forall p, snd (vstep o (VStrandLen p))
+             = match nth_error stab p with Some r => of_nat (length r) | None => err eIndex end) /\
+  (forall l, snd (vstep o (VDomain l)) = of_res VStr (nth2r stab l)) /\
+  (forall a b, snd (vstep o (VPaired a b))
+               = if (a <? 0)%Z || (b <? 0)%Z then err eIndex
+                 else of_res (of_opt of_loc) (nth2r (tabT st) (Z.to_nat a, Z.to_nat b))) /\
+  (forall l, snd (vstep o (VLoop l))
+             = match loop_index_of st with Ok le => of_res of_nat (nth2r (fst le) l) | Err e => err e end) /\
+  snd (vstep o VExt) = match ext_enc st with Ok xe => of_locs (fst xe) | Err e => err e end /\
+  snd (vstep o VEnc) = match ext_enc st with Ok xe => of_locs (snd xe) | Err e => err e end /\
+  snd (vstep o VConnected) = conn_val (loop_index_of st) /\
+  snd (vstep o VRotate) = of_ckeys (rotations (sq, st)).
+Proof.
+  intros V sq st stab. pose proof V as (GN & _ & T2 & _ & K). pose proof GN as [[_ W] _]. cbn [rep snd] in W.
+  pose proof (tabT_ok _ W) as PT. fold st in PT.
+  split; [symmetry; exact T2|].
+  split. { cbn [vstep]. rewrite (vstep_size_val o (fun _ n => of_nat n) K) by reflexivity.
+           pose proof (n_strands_nstr (rep o) GN) as NS. cbn [rep fst snd] in NS. rewrite NS. reflexivity. }
+  split. { cbn [vstep]. rewrite vstep_stab_val by exact K. reflexivity. }
+  split. { cbn [vstep]. rewrite with_ptab_val by exact K. fold st. rewrite PT. reflexivity. }
+  split; [exact PT|].
+  split. { intros p. cbn [vstep].
+           apply (vstep_stab_val o (fun s => match nth_error s p with Some r => of_nat (length r) | None => err eIndex end) K). }
+  split. { intros l. cbn [vstep]. apply (vstep_stab_val o (fun s => of_res VStr (nth2r s l)) K). }
+  split. { intros a b. cbn [vstep]. destruct ((a <? 0)%Z || (b <? 0)%Z); [reflexivity|].
+           rewrite with_ptab_val by exact K. fold st. rewrite PT. reflexivity. }
+  split. { intros l. cbn [vstep].
+           apply (vstep_li_val o (fun r => match r with Ok le => of_res of_nat (nth2r (fst le) l) | Err e => err e end) K). }
+  split. { cbn [vstep].
+           apply (vstep_ext_val o (fun r => match r with Ok xe => of_locs (fst xe) | Err e => err e end) K). }
+  split; [apply (vstep_enc_val o K)|]. split; [apply (vstep_conn_val o K)|].
+  cbn [vstep]. rewrite (vstep_size_val o (fun o1 n => of_res of_ckeys (cobj_rotate o1 n)) K)
+    by (intros x y n E1 E2; rewrite (cobj_rotate_core x y n E1 E2); reflexivity).
+  pose proof (n_strands_nstr (rep o) GN) as NS. cbn [rep fst snd] in NS. rewrite NS.
+  rewrite cobj_rotate_all by exact V. reflexivity.
+Qed.
+
+(* ---- non-vacuity: "g h + a b + c d e f", "(.+)(+()).": two rotations away from its canonical form ---- *)
+Example ex_views :
+  let sq := [[103%N]; [104%N]; sPlus; [97%N]; [98%N]; sPlus; [99%N]; [100%N]; [101%N]; [102%N]] in
+  let st := [cO; cD; cP; cC; cO; cP; cO; cC; cC; cD] in
+  goodNE (sq, st) /\
+  exists canon turns rots,
+    identifiers_fresh sq st = Ok (canon, turns, rots) /\ turns = 2%Z /\
+    let o := new_obj canon turns sq st in
+    ViewOK o /\
+    (exists t1 t2, vrun o [VPtab; VSetTurns 1; VPtab; VTurns; VSize] = [t1; VNone; t2; VInt 1; VInt 3] /\ t1 <> t2) /\
+    (* any integer is accepted: -5 = 1 (mod 3) *)
+    o_turns (vstate o [VPtab; VExt; VSetTurns (-5)]) = 1%Z /\
+    rep (vstate o [VPtab; VExt; VSetTurns (-5)]) = rep (vstate o [VSetTurns 1]) /\
+    c_ptab (vstate o [VPtab; VExt]) <> None /\ c_ptab (vstate o [VPtab; VExt; VSetTurns (-5)]) = None.
+Proof.
+  cbn zeta.
+  assert (GN : goodNE ([[103%N]; [104%N]; sPlus; [97%N]; [98%N]; sPlus; [99%N]; [100%N]; [101%N]; [102%N]],
+                       [cO; cD; cP; cC; cO; cP; cO; cC; cC; cD])).
+  { split; [split; reflexivity|]. unfold NE. cbn. repeat constructor; discriminate. }
+  split; [exact GN|].
+  do 3 eexists. split; [vm_compute; reflexivity|]. split; [reflexivity|].
+  split.
+  { eapply viewok_after_construction; [exact GN|]. vm_compute. reflexivity. }
+  split.
+  { do 2 eexists. split; [vm_compute; reflexivity|]. discriminate. }
+  split; [vm_compute; reflexivity|]. split; [vm_compute; reflexivity|].
+  split; [vm_compute; discriminate|vm_compute; reflexivity].
+Qed.
